@@ -22,6 +22,7 @@ TRUSTED = ["oracle: deep snapshot comparison on the real objects (harness/props/
 ASSUMPTIONS = ["the no-aliasing clause is monitored on the real objects, not proved (a pure functional model has no aliasing)",
                "file-system behaviour of io.open/write itself is trusted; crashes in the middle of write() are outside the property"]
 
+BOGUS = "bogus_option"     # an option value that is in no validOptions list
 MUTATORS = {"iinsert", "pinsert", "idelete", "pdelete", "tg_add", "tg_remove", "tg_rename", "tg_replace"}
 INPLACE_OK = {"tg_align"}   # documented to modify and return the given textgrid
 
@@ -53,6 +54,8 @@ def encode(c, enc):
         line = "imp_" + line
         if c["op"] in ("iinsert", "pinsert"):
             line += " " + c.get("report", "silence")
+        # an option value outside validOptions travels as `?` (names and labels are hex tokens: no clash)
+        line = " ".join("?" if tok == BOGUS else tok for tok in line.split(" "))
     return line
 
 
@@ -229,6 +232,19 @@ def fault_stream():
         yield {"op": "iinsert", "tier": it, "entry": [1.5, 6.5, "n"], "mode": mode, "report": "error", "outside": True}
         yield {"op": "pinsert", "tier": pt, "entry": [1.0, "n"], "mode": mode, "report": "error", "outside": True}
     yield {"op": "iinsert", "tier": it, "entry": [2.0, 3.0, "n"], "mode": "replace", "report": "error"}     # no collision: no report
+    # invalid option values: WrongOption from validateOption.  For replaceTier the option is validated by addTier INSIDE the
+    # try, after the old tier has been removed: only the except block makes the textgrid whole again
+    yield {"op": "iinsert", "tier": it, "entry": [1.5, 3.5, "n"], "mode": BOGUS, "report": "silence"}
+    yield {"op": "iinsert", "tier": it, "entry": [1.5, 3.5, "n"], "mode": "replace", "report": BOGUS}
+    yield {"op": "iinsert", "tier": it, "entry": [2.0, 3.0, "n"], "mode": BOGUS, "report": BOGUS}
+    yield {"op": "pinsert", "tier": pt, "entry": [1.0, "n"], "mode": BOGUS, "report": "warning"}
+    yield {"op": "pinsert", "tier": pt, "entry": [1.0, "n"], "mode": "merge", "report": BOGUS}
+    for idx in (None, 0, 7):
+        yield {"op": "tg_add", "tg": g, "tier": wide, "index": idx, "report": BOGUS}
+        yield {"op": "tg_add", "tg": g, "tier": dict(it, name="a"), "index": idx, "report": BOGUS}
+    for nm in ("a", "p", "b", "zz"):
+        yield {"op": "tg_replace", "tg": g, "name": nm, "tier": wide, "report": BOGUS, "anyerr": nm == "zz"}
+        yield {"op": "tg_replace", "tg": g, "name": nm, "tier": dict(wide, name="p"), "report": BOGUS, "anyerr": nm == "zz"}
     yield {"op": "idelete", "tier": it, "entry": [1.0, 2.0, "absent"]}
     yield {"op": "pdelete", "tier": pt, "entry": [2.0, "x"]}
     for idx in (None, 0, 1, -1, 7):
